@@ -520,6 +520,8 @@ pub fn c02(tier: &str) -> i32 {
         if t { 3000 } else { 50 },
     );
     crate::bulk::periodic_staleness(&mut out, t);
+    crate::bulk::deep_ladders(&mut out, t);
+    crate::bulk::long_queues(&mut out, false, false);
     // unbounded depth: closure over abstract book states (the reference engine only supplies the
     // state identity; the oracle stays the model-free recomputation from get_orders()), with
     // snapshot reloads among the actions and the class of the last operation in the key
@@ -865,6 +867,8 @@ pub fn c12(tier: &str) -> i32 {
     p.market_vols = vec![2];
     plans.push(plan("tick 2: event route + separate create/place", p, 3, if t { 5 } else { 4 }));
     execute(&mut out, plans, &mon, &["op:offgrid-create", "op:modify", "modify-requeue"], if t { 3000 } else { 50 });
+    // many populated levels per side: the published levels must account for the resting volume
+    crate::bulk::deep_ladders(&mut out, t);
     crate::envprops::c12_env_part(&mut out, t);
     out.finish()
 }
@@ -944,6 +948,7 @@ pub fn c13(tier: &str) -> i32 {
         &crate::absx::ClosureCfg { label: "C13: trading flag in the key (crossed books reachable)", max_rest: if t { 3 } else { 2 }, max_vol: 2, modify: true, toggles: true, create: false, redundant: false, ties: false, prices: 3, reload_depth: 0, suffix_k: 0 },
         t,
     );
+    crate::bulk::long_queues_cfg(&mut out, false, t, true);
     // the same closure with the classes of the last two (thorough: three) operations in the key:
     // a book entered by a modification, a toggle, ... is expanded separately from the same live
     // book entered otherwise (state carried from one operation to the next)
